@@ -4,6 +4,7 @@ void GMGPolar::multigrid_W_Cycle(const int level_depth, Vector<double>& solution
                                  Vector<double>& residual)
 {
     assert(0 <= level_depth && level_depth < number_of_levels_ - 1);
+    VERIF_EV("CycleEnter", "\"kind\":1,\"ext\":0,\"depth\":%d", level_depth);
 
     auto start_MGC = std::chrono::high_resolution_clock::now();
 
